@@ -18,7 +18,7 @@ RULE = ("Cases: file content = lines joined by '\\n' with optional final '\\n'; 
 EXPLANATION = ""
 ASSUMPTIONS = ["PYTHONUTF8=1 pins the default text encoding to UTF-8 (set by ./check)",
                "the memory-mapped variants are not given an empty file (the OS cannot map one; stated in the property)"]
-FLOORS = {"cr": (0.2, None), "multi-byte": (0.25, None), "interleaved-iteration": (0.08, None), "custom-index": (0.15, None), "long-line": (0.02, None)}
+FLOORS = {"cr": (0.2, None), "multi-byte": (0.25, None), "interleaved-iteration": (0.064, None), "custom-index": (0.111, None), "long-line": (0.02, None)}
 SHARDS = {"quick": 12, "thorough": 14}
 
 OPS = ["open_it", "adv", "idx", "adv", "slice", "adv", "sel", "len", "list", "open_it", "adv", "idx", "adv", "adv"]
